@@ -99,7 +99,7 @@ var _ RawRegister64 = ParseACMStatusRegister(0)
 // ReadACMStatusRegister reads the raw ACM status register from TXT config
 func ReadACMStatusRegister(data TXTConfigSpace) (ACMStatus, error) {
 	var u32 uint32
-	buf := bytes.NewReader(data[ACMStatusRegisterOffset:])
+	buf := bytes.NewReader(data.from(ACMStatusRegisterOffset))
 	err := binary.Read(buf, binary.LittleEndian, &u32)
 	if err != nil {
 		return 0, err
